@@ -98,6 +98,9 @@ def finish(mod, tier, seed, shapes, results, wall):
             distinct.add(stable_hash(r.get("shape")))
         if st == HOLDS and len(samples) < 6 and r.get("sample") and (r.get("queries", 0) > 0):
             samples.append(r["sample"])
+        if st == HOLDS and r.get("skipped") and r.get("obligations"):
+            counters["shapes decided on some paths only (other paths outside the model / rejected)"] = counters.get(
+                "shapes decided on some paths only (other paths outside the model / rejected)", 0) + 1
         if st == HARNESS:
             harness_errors.append(r)
         for v in r.get("violations", ()):
